@@ -23,8 +23,13 @@ REGISTRATION = {
             "routes.go on every run; a case-sensitive file system is assumed.",
 }
 
-MODULES = ["OllamaVerif.Properties.C04"]
-THEOREMS = []
+MODULES = ["OllamaVerif.Properties.C04", "OllamaVerif.Proofs.Store", "OllamaVerif.Model.Store"]
+THEOREMS = [
+    "OllamaVerif.C04.op_preserves_NameInv",
+    "OllamaVerif.C04.op_frame",
+    "OllamaVerif.C04.history_preserves_Inv",
+    "OllamaVerif.C04.prune_exact",
+]
 OVERLAY = {"server/zz_verif_c04_test.go": "server/zz_verif_c04_test.go"}
 
 
